@@ -107,7 +107,7 @@ func observeJSON(doc string) []string {
 			}
 			return "DECODED-INVALID-JSON"
 		})
-		return []string{"INVALID", r, "-", "-", "-", "-", "-", "-"}
+		return []string{"INVALID", r, "-", "-", "-", "-", "-", "-", "-", "-", "-"}
 	}
 	var cst strings.Builder
 	(&sc{b: []byte(doc)}).val(&cst)
@@ -122,7 +122,7 @@ func observeJSON(doc string) []string {
 	})
 	out := []string{strings.TrimSpace(cst.String()), res}
 	if d == nil {
-		return append(out, "-", "-", "-", "-", "-", "-")
+		return append(out, "-", "-", "-", "-", "-", "-", "-", "-", "-")
 	}
 	valid := false
 	out = append(out, guard(func() string {
@@ -133,9 +133,23 @@ func observeJSON(doc string) []string {
 		return "ok"
 	}))
 	if !valid {
-		return append(out, "-", "-", "-", "-", "-")
+		return append(out, "-", "-", "-", "-", "-", "-", "-", "-")
 	}
-	return append(out, renderAll(d)...)
+	out = append(out, renderAll(d)...)
+	// the same through a driver built the way the README describes (a Base over a copy of Shared) and through zero values
+	custom := map[expr.Operator]driver.RenderFN{}
+	for op, fn := range driver.Shared {
+		custom[op] = fn
+	}
+	for _, b := range []driver.Base{{RenderFNs: custom}, {}, driver.PostgresDriver{}.Base} {
+		b := b
+		out = append(out, guard(func() string {
+			_, err := b.Render(d)
+			_, _, err2 := b.RenderParam(d)
+			return "ret" + errflag(err) + errflag(err2)
+		}))
+	}
+	return out
 }
 
 // D: custom driver. Every operator gets a tracing render function; mapspec "rm=<op>,<op>;ov=<op>,..." removes the
@@ -179,6 +193,11 @@ func observeCustom(q, spec string) []string {
 		}
 	}
 	b := driver.Base{RenderFNs: fns}
+	if strings.Contains(spec, "nil=1") { // the zero value of Base: no table at all, every node lacks a function
+		b = driver.Base{}
+	} else if strings.Contains(spec, "empty=1") {
+		b = driver.Base{RenderFNs: map[expr.Operator]driver.RenderFN{}}
+	}
 	res := guard(func() string {
 		s, err := b.Render(e)
 		return "x" + hx(s) + errflag(err)
